@@ -32,7 +32,12 @@ MANIFEST = dict(
          "encoder model (C01_encode_total): on every post-construction state the constructors guarantee (decidable "
          "`accepted`) whose attribute shapes are those of C01's quantifier (decidable `shapesInQuantifier`) the model "
          "returns a document, or raises ValueError and the group_by keys are not contiguous — never anything else; "
-         "`accepted` is checked against the real constructors in both directions on every run.",
+         "`accepted` is checked against the real constructors in both directions on every run. "
+         "Props/C01totalmore.lean proves the same first clause for the multi-section model (C01_encodeM_total: a "
+         "document, or ValueError and the keys of some section are not contiguous; every per-section temp_document of "
+         "an accepted document is an accepted single-section state, C01_sections_accepted) and for the figure-only "
+         "model (C01_encodeF_total: an accepted figure document encodes, no refusal), with `acceptedM` / `acceptedF` "
+         "tied to the real constructors in both directions in the same way.",
     note="Totality is a theorem about the encoder MODEL (byte-exact against rtf_encode() on every generated document, "
          "exceptions included); of the real encoder it is observed on the configuration product (exceptions other than "
          "the documented ValueError are violations). Configurations the constructors accept outside the quantifier "
@@ -357,6 +362,9 @@ def run(res, build):
 
     outs = encodecorr2.run(res, res.tier)
     res.evaluations += len(outs)
+    # first clause on those paths (Props/C01totalmore.lean): `acceptedM` / `acceptedF` against the real constructors in
+    # both directions, the totality theorems' partition against what the real encoder does
+    res.evaluations += encodetotal.run_more(res, outs)
     n = 420 if res.tier == "quick" else 6000
     jobs = [(res.seed, k, None) for k in range(n)]
     cdir = common.CORPUS / "C01"
